@@ -129,6 +129,37 @@ theorem mdft_phase_unit_modulus (he : IsChar e) (cj : K →+* K) (hc : IsConj cj
   unfold shiftPhase
   rw [hc.e_conj, mul_comm, he.mul_neg_self]
 
+/-- the model's `spec2` is literally the textbook double sum of the property statement:
+`(√αy·√αx) · Σ_j Σ_i f[j,i] · e(αy (j−m//2)(k−M//2−sy) + αx (i−n//2)(l−N//2−sx))`, `αy = 1/(m Qy)`, `αx = 1/(n Qx)` -/
+theorem spec2_eq_double_sum (he : IsChar e) (m n M N : Nat) (αy αx sy sx : R) (f : Nat → Nat → K) (k l : Nat) :
+    spec2 e nrm m n M N αy αx sy sx f k l
+      = (nrm αy * nrm αx) * ∑ j ∈ Finset.range m, ∑ i ∈ Finset.range n, f j i *
+          e (αy * ((xc m j : R) * ((xc M k : R) - sy)) + αx * ((xc n i : R) * ((xc N l : R) - sx))) := by
+  simp only [spec2, spec1, sumTo_eq, Finset.mul_sum, Finset.sum_mul, he.add]
+  exact Finset.sum_congr rfl fun j _ => Finset.sum_congr rfl fun i _ => by ring
+
+/-- "when a shift is requested the routes may differ only by a pure phase, never in modulus": the squared modulus
+`conj(out)·out` of the matrix DFT (hence, by `czt_eq_mdft`, of the chirp-Z transform) equals that of the textbook sum,
+for every shift -/
+theorem shifted_route_same_modulus (he : IsChar e) (cj : K →+* K) (hc : IsConj cj e nrm) (m n M N : Nat)
+    (Qy Qx s0 s1 : R) (f : Nat → Nat → K) (k l : Nat) :
+    cj (mdft2 e nrm mdftEoutWiring mdftEinWiring (m, n) (M, N)
+        (mdftEoutScale (m : R) (n : R) Qy Qx) (mdftEinScale (m : R) (n : R) Qy Qx)
+        (mdftEinNormSq (m : R) (n : R) Qy Qx) (mdftEoutNormSq (m : R) (n : R) Qy Qx) (s0, s1) f k l)
+      * mdft2 e nrm mdftEoutWiring mdftEinWiring (m, n) (M, N)
+        (mdftEoutScale (m : R) (n : R) Qy Qx) (mdftEinScale (m : R) (n : R) Qy Qx)
+        (mdftEinNormSq (m : R) (n : R) Qy Qx) (mdftEoutNormSq (m : R) (n : R) Qy Qx) (s0, s1) f k l
+      = cj (spec2 e nrm m n M N (alphaOf m Qy) (alphaOf n Qx) s1 s0 f k l)
+          * spec2 e nrm m n M N (alphaOf m Qy) (alphaOf n Qx) s1 s0 f k l := by
+  rw [mdft_eq_phase_mul_spec nrm he, map_mul, map_mul]
+  have h1 := mdft_phase_unit_modulus nrm he cj hc M (alphaOf m Qy) s1 k
+  have h2 := mdft_phase_unit_modulus nrm he cj hc N (alphaOf n Qx) s0 l
+  calc _ = (cj (shiftPhase e M (alphaOf m Qy) s1 k) * shiftPhase e M (alphaOf m Qy) s1 k)
+            * (cj (shiftPhase e N (alphaOf n Qx) s0 l) * shiftPhase e N (alphaOf n Qx) s0 l)
+            * (cj (spec2 e nrm m n M N (alphaOf m Qy) (alphaOf n Qx) s1 s0 f k l)
+                * spec2 e nrm m n M N (alphaOf m Qy) (alphaOf n Qx) s1 s0 f k l) := by ring
+    _ = _ := by rw [h1, h2]; ring
+
 /-! ## chirp-Z (Bluestein) -/
 
 /-- 1-D Bluestein with the index glue of the current source, computed through `fft`/`ifft` of ANY length
